@@ -68,10 +68,11 @@ def run(ck, w):
     o = ck.ob("C02.2c", "list_band_ids returns the band ids sorted; last_band_id is their maximum")
     srt = [e for e in lbi.events if e.bb in lbi.live and re.search(r"Itertools::sorted$|::sort(_unstable)?$", e.name)]
     lb = w.body("archive::Archive::last_band_id")
-    mx = [e for e in lb.events if e.bb in lb.live and e.name == "std::iter::Iterator::max"]
+    # the maximum, or the last element of the (ascending, see C02.2e) list
+    mx = [e for e in lb.events if e.bb in lb.live and (e.name == "std::iter::Iterator::max" or re.search(r"<impl \[T\]>::last$|Iterator::last$|Vec::<T, A>::pop$", e.name))]
     if not srt:
         ck.fail(o, lbi.name, "band list not sorted", "list_band_ids no longer sorts")
-    elif not mx or "archive::Archive::list_band_ids" not in flow.origin_calls(flow.origins_x(lib, lb, mx[0].args[0])):
+    elif not mx or "archive::Archive::list_band_ids" not in flow.origin_calls(flow.origins_x(lib, lb, mx[0].args[0], through_calls=[r"Deref>?::deref$", r"Vec::<T, A>::as_slice$"])):
         ck.fail(o, lb.name, "last_band_id is not max(list_band_ids)", "no Iterator::max over list_band_ids")
     else:
         ck.ok(o)
@@ -123,8 +124,13 @@ def _band_order_and_cache(ck, w):
             problems.append("%s for BandId is not derived (needs review)" % tr)
     srt = [e for e in lbi.events if e.bb in lbi.live and re.search(r"Itertools::sorted$|::sort(_unstable)?$", e.name)]
     if srt:
+        # what is sorted are BandId values (numeric order), not names: the element type of the sorted collection
+        def _ty(op):
+            return lbi.locals[op["pl"]["l"]] if op.get("k") in ("copy", "move") else ""
+        tys = " ".join([_ty(a) for a in srt[0].args[:1]] + [lbi.locals[srt[0].dest["l"]] if srt[0].dest else ""])
         src = flow.origins_x(lib, lbi, srt[0].args[0])
-        if not any(c.endswith("Iterator::filter_map") for c in flow.origin_calls(src) | {x[1] for x in src if x[0] == "via"}):
+        via_parse = any(c.endswith("Iterator::filter_map") for c in flow.origin_calls(src) | {x[1] for x in src if x[0] == "via"})
+        if "bandid::BandId" not in tys and not via_parse:
             problems.append("the band list is sorted before the names are parsed into BandId")
         parsed = False
         for fb in lib.family("archive::Archive::list_band_ids"):
